@@ -15,10 +15,10 @@ package main
 
 import (
 	"fmt"
-	"os"
 	"go/token"
 	"go/types"
 	"math"
+	"os"
 	"sort"
 	"strings"
 
@@ -407,6 +407,9 @@ func (p *Prog) buildState(tn string, choose func(setter string) int, will *packe
 				}
 				if s.Name() == "SetQoS" && !zero {
 					a = sv{k: 'i', i: int64(1 + variant%2)}
+					if q, ok := p.cache["forceqos"].(int64); ok {
+						a.i = q // a malformed but constructible packet (C10's domain)
+					}
 				}
 				args = append(args, a)
 			}
@@ -1056,6 +1059,7 @@ type stateSpec struct {
 	choose func(string) int
 	will   int   // 0 none, 1 will with content
 	bias   int64 // > 0: every string/binary length and every integer argument is this boundary value (clamped to the parameter's type)
+	qos    int64 // > 0: SetQoS is called with this value (3: malformed but constructible)
 }
 
 // boundaryValues: the boundary lengths named by the properties' quantifiers (C01: 0, 1, 127, 128, 16 383, 16 384,
@@ -1120,6 +1124,10 @@ func (p *Prog) buildStateSpec(tn string, spec stateSpec, choose func(string) int
 	if spec.bias > 0 {
 		p.cache["lenbias"] = spec.bias
 		defer delete(p.cache, "lenbias")
+	}
+	if spec.qos > 0 {
+		p.cache["forceqos"] = spec.qos
+		defer delete(p.cache, "forceqos")
 	}
 	return p.buildState(tn, choose, will)
 }
